@@ -30,7 +30,7 @@ COMPONENTS = {"real": ["litex.soc.interconnect.axi.AXILite2Wishbone/Wishbone2AXI
                        "litex.gen.sim.core.Simulator"],
               "stub": ["AXI-Lite / Wishbone master and slave agents", "clock source"]}
 CHUNK = 4
-FAMS = ["axil2wb", "wb2axil", "axil_conv", "axil_sram", "axil2csr", "axil_remap", "chain", "axi2axil", "axi2wb", "axil2axi", "wb2axi", "ahb2wb"]
+FAMS = ["axil2wb", "wb2axil", "axil_conv", "axil_sram", "axil2csr", "axil_remap", "chain", "axi2axil", "axi2wb", "axil2axi", "wb2axi", "ahb2wb", "adapter"]
 
 
 SEEDED_SCALE = {"quick": 6, "thorough": 4}      # multiplies the run counts of the sampled families in plan()
@@ -92,6 +92,9 @@ def gen_axi_ops(rng, n, nb, base_word, narrow=True):
 
 
 def generate(family, rng, tier, wb_err=False, up_pipelined=False, lite_pipelined=False):
+    if family == "adapter":
+        from props import c09_adapter
+        return c09_adapter.generate(rng, tier)
     n = rng.randint(20, 60)
     p = {"family": family}
     scn = {"family": family, "params": p, "max_out": rng.choice([1, 2, 4]),
@@ -188,6 +191,9 @@ def generate(family, rng, tier, wb_err=False, up_pipelined=False, lite_pipelined
 
 # ------------------------------------------------------------------------------------------------
 def run(scn):
+    if scn["family"] == "adapter":
+        from props import c09_adapter
+        return c09_adapter.run(scn)
     if scn["family"] in ("axi2axil", "axi2wb", "axil2axi", "wb2axi", "ahb2wb"):
         from props import c09b
         return c09b.run(scn)
